@@ -91,9 +91,9 @@ def front(v, tier, seed):
 
     # 1. design
     mcs = ["Notify_mc_cache.cfg", "Notify_mc_core.cfg", "Notify_mc_shared.cfg", "Notify_mc_ttl.cfg",
-           "Notify_mc_timed.cfg", "Notify_mc_off.cfg"]
+           "Notify_mc_timed.cfg", "Notify_mc_off.cfg", "Notify_mc_read.cfg"]
     if tier == "thorough":
-        mcs.insert(0, "Notify_mc_core_t.cfg")
+        mcs = ["Notify_mc_cache_t.cfg", "Notify_mc_core_t.cfg"] + mcs
     for c in mcs:
         add(("mc", c), tlc("NotifyMC", c, workers=2, timeout=1500, heap_gb=6))
     # 1b. vacuity: each witness must be violated
@@ -111,7 +111,9 @@ def front(v, tier, seed):
     # 3. generation
     wcfg = "Notify_gen_window.cfg" if tier == "quick" else "Notify_gen_window_t.cfg"
     add(("gen", "window"), tlc("NotifyGen", wcfg, workers=2, timeout=1500, heap_gb=6))
-    for tag, c in (("cachex_list", "Notify_gen_cachex_list.cfg"), ("cachex_read", "Notify_gen_cachex_read.cfg")):
+    exh = (("cachex_list", "Notify_gen_cachex_list.cfg"), ("cachex_read", "Notify_gen_cachex_read.cfg"),
+           ("subs", "Notify_gen_subs.cfg"))
+    for tag, c in exh:
         add(("gen", tag), tlc("NotifyGen", c, workers=1, timeout=1500, heap_gb=4))
     num = {"quick": 100, "thorough": 2500}[tier]
     sims = [("mix", "Notify_gen_mix.cfg", num), ("ttl", "Notify_gen_ttl.cfg", num), ("off", "Notify_gen_off.cfg", num // 2)]
@@ -156,7 +158,7 @@ def front(v, tier, seed):
             beh.append(("window", p))
     if len(beh) < 100:
         raise vlib.MachineryError("window configuration exported only %d behaviours" % len(beh))
-    for tag, c in (("cachex_list", "Notify_gen_cachex_list.cfg"), ("cachex_read", "Notify_gen_cachex_read.cfg")):
+    for tag, c in exh:
         res = got[("gen", tag)]
         vlib.tlc_must_pass(res, c)
         v.add_tlc(c + " (every complete behaviour)", res)
@@ -192,6 +194,7 @@ def steps_of(p):
 CONF = {
     # tag: (sessions, initOn, ttl, capOff, uris); sessions in INIT_SUB are subscribed to every URI before the script starts
     "window": (["L1", "M1"], ["L1", "M1"], 0, [], []),
+    "subs": (["L1", "L2", "M1", "M2"], ["L1", "L2", "M1", "M2"], 0, [], ["u1"]),
     "cachex_list": (["M1"], ["M1"], 60000, [], []),
     "cachex_read": (["M1"], ["M1"], 60000, [], ["u1"]),
     "mix": (["L1", "M1", "M2"], ["L1", "M1"], 0, [], ["u1"]),
@@ -201,7 +204,9 @@ CONF = {
 
 
 INIT_SUB = {"cachex_read": ["M1"]}
-EXHAUSTIVE = ("window", "cachex_list", "cachex_read")
+EXHAUSTIVE = ("window", "cachex_list", "cachex_read", "subs")
+# ServerOptions.PageSize: the base features alone fill two pages
+PAGED = {"cachex_list": [2], "ttl": [0, 2], "lead": [0, 2]}
 
 
 def sess_spec(name, rng, want_m2=True):
@@ -215,12 +220,17 @@ def concretise(sid, tag, steps, rng, sessions, init_on, ttl, cap_off, uris, auto
     st = [["connect", s, ""] for s in init_on]
     st += [["subscribe", s, u] for s in INIT_SUB.get(tag, []) for u in uris]
     npre = len(st)
+    page = rng.choice(PAGED.get(tag, [0]))
     for op, a1, a2 in steps:
         if op in ("change", "tchange"):
-            a2 = rng.choice(["add", "add", "rm"])
+            # "add" sorts after the base features (a later page when paginated), "addlo" before them (first page)
+            if tag == "lead":
+                a2 = "addlo" if page else "add"  # the change must land on the page whose fill is held: the first one
+            else:
+                a2 = rng.choice(["add", "addlo", "rm"] if (page and tag != "cachex_list") else ["add", "add", "rm"])
         st.append([op, a1, a2])
     return {"id": sid, "tag": tag, "ttl": ttl, "capOff": cap_off, "uris": uris, "sessions": [sess_spec(s, rng) for s in sessions],
-            "steps": st, "autolist": autolist, "yield": yield_, "npre": npre}
+            "steps": st, "autolist": autolist, "yield": yield_, "npre": npre, "pageSize": page}
 
 
 def norm_proj(p, sessions=None):
@@ -308,18 +318,33 @@ def signature(f, trows, idx):
     if clause == "Fresh":
         call = next((r for r in trows[:idx] if r.get("ev") == "list.begin" and r.get("id") == e.get("id")), {})
         kind = e.get("kind")
-        if e.get("hit"):
-            # the entry that was served: last completed server answer for (s, item) before this call
+        if e.get("pages", 1) > e.get("sentPages", 0):
+            # (a page of) the answer came from the cache; the entry that was served: last completed server answer for
+            # (s, item) before this call
             fills = [i for i, r in enumerate(trows[:idx]) if r.get("ev") == "list.end" and r.get("s") == s and r.get("item") == e.get("item")
-                     and r.get("ok") and not r.get("hit") and r["seq"] < call.get("seq", 0)]
+                     and r.get("ok") and r.get("sentPages", 0) > 0 and r["seq"] < call.get("seq", 0)]
             topic_n = "updated" if kind == "read" else NOTIF_OF.get(e.get("item"), "?")
-            users = [r["seq"] for r in trows[:idx] if r.get("ev") == "notif.user" and r.get("s") == s and r.get("n") == topic_n
-                     and (kind != "read" or r.get("u") == e.get("item")) and r["seq"] < call.get("seq", 0)]
-            if fills and users:
+            # points at which the SDK dropped the cache entries: right after the notification passed the client's
+            # receiving middleware (and its gate, when held)
+            invs = []
+            for j, r in enumerate(trows[:idx]):
+                if r.get("ev") == "notif.arrive" and r.get("s") == s and r.get("n") == topic_n and (kind != "read" or r.get("u") == e.get("item")):
+                    inv = r["seq"]
+                    for r2 in trows[j + 1:idx]:
+                        if r2.get("s") == s and r2.get("ev") == "notif.arrive":
+                            break
+                        if r2.get("s") == s and r2.get("ev") == "gate.pass" and r2.get("g") == "inv":
+                            inv = r2["seq"]
+                            break
+                        if r2.get("s") == s and r2.get("ev") == "notif.user":
+                            break
+                    invs.append(inv)
+            invs = [x for x in invs if x < call.get("seq", 0)]
+            if fills and invs:
                 fend = trows[fills[-1]]
                 fbeg = next((r["seq"] for r in trows[:fills[-1]] if r.get("ev") == "list.begin" and r.get("id") == fend.get("id")), 0)
-                arr = [r["seq"] for r in trows[:fills[-1]] if r.get("ev") == "resp.arrive" and r.get("s") == s and fbeg < r["seq"] < fend["seq"]]
-                if arr and any(arr[0] < u < fend["seq"] for u in users):
+                # the fill was in flight when the entry was invalidated and was put afterwards
+                if any(fbeg < x < fend["seq"] for x in invs):
                     return "cache:stale-fill-after-invalidate:%s" % kind
             return "Fresh:cache-hit-not-invalidated:%s" % kind
         return "Fresh:server-answer-older:%s:%s" % (kind, era)
@@ -356,6 +381,10 @@ def signature(f, trows, idx):
             unsubs = [r["seq"] for r in trows[:idx] if r.get("ev") == "unsub.begin" and r.get("s") == s and r.get("u") == u]
             if subs and unsubs and exits and unsubs[-1] < subs[-1] < exits[-1]:
                 why = ":stale-unsubscribe-overtakes-resubscribe"
+            elif subs and any(r.get("ev") == "unsub.begin" and r.get("s") != s and r.get("u") == u and r["seq"] > subs[-1] for r in trows[:idx]):
+                why = ":after-unsubscribe-by-another-session"
+            elif subs and any(r.get("ev") == "close.begin" and r.get("s") != s and r["seq"] > subs[-1] for r in trows[:idx]):
+                why = ":after-close-of-another-session"
         if x == "extra":
             closed = any(r.get("ev") == "close.begin" and r.get("s") == s for r in trows[:idx])
             unsub = any(r.get("ev") == "unsub.begin" and r.get("s") == s for r in trows[:idx])
@@ -445,9 +474,15 @@ def run(tier, seed, replay):
         # quick tier: the exhaustive cache sets are run completely up to 5 steps, the longer scripts by seeded sample
         longer = sorted(k for k in groups if k[0].startswith("cachex") and len(json.loads(k[1])) > 5)
         keep = set(rng.sample(longer, min(len(longer), 200))) if tier == "quick" else set(longer)
+        # subscription scripts: only those that end by telling who gets a resource update; quick tier: all up to 3
+        # steps and a seeded sample of the 4-step ones
+        sub4 = sorted(k for k in groups if k[0] == "subs" and len(json.loads(k[1])) > 3 and '"updated"' in k[1])
+        keep |= set(rng.sample(sub4, min(len(sub4), 250))) if tier == "quick" else set(sub4)
         for (tag, key), ps in sorted(groups.items()):
             steps = json.loads(key)
             if tag.startswith("cachex") and len(steps) > 5 and (tag, key) not in keep:
+                continue
+            if tag == "subs" and ('"updated"' not in key or (len(steps) > 3 and (tag, key) not in keep)):
                 continue
             sessions, init_on, ttl, cap_off, uris = CONF[tag]
             racy = any(s[0] == "tchange" for s in steps)
